@@ -74,8 +74,11 @@ def menu():
         # a default (written, or taken from the signature) followed by an item that has none: nothing may carry over to the next item
         add(kind, "n", items=[_item("y", "str", D1, default="'b'"), _item("x", None)])
         add(kind, "gn", items=[_item("y", None), _item("x", None, D2)])
+        # a name the signature does not have (a key of **kw) after a typed item: neither annotation nor default may come from anywhere
+        add(kind, "gn", items=[_item("x", "int"), _item("zz", None), _item("y", None)])
     add("attributes", "gns", items=[_item("a", "int")])
     add("attributes", "gn", items=[_item("a", None, D2), _item("b", "str", D3)])
+    add("attributes", "gn", items=[_item("b", "str"), _item("zz", None), _item("a", None)])  # zz: not an attribute of the parent
     for kind in ("returns", "yields", "receives"):
         add(kind, "gn", items=[_item("r", "int")])
         add(kind, "gn", items=[_item("", "str", D2), _item("r", "int")])
